@@ -121,75 +121,5 @@ DoubleToFloat(le) ==
                       q2 == IF up THEN IncBits(q) ELSE q           \* q <= 2^23 - 1 + 1: no overflow of 24 bits
                   IN BitsToLE(q2 \o [i \in 1..7 |-> 0] \o <<sign>>, 4)   \* bit 24 set = exponent field 1
 
-(***************************************************************************)
-(* Vectors computed independently (exact integer arithmetic / C casts).    *)
-(***************************************************************************)
-ASSUME IntToFloat(<<0,0,0,0,0,0,0,0>>) = <<0,0,0,0>> /\ IntToDouble(<<0,0,0,0,0,0,0,0>>) = <<0,0,0,0,0,0,0,0>>  \* 0
-ASSUME IntToFloat(<<1,0,0,0,0,0,0,0>>) = <<0,0,128,63>> /\ IntToDouble(<<1,0,0,0,0,0,0,0>>) = <<0,0,0,0,0,0,240,63>>  \* 1
-ASSUME IntToFloat(<<255,255,255,255,255,255,255,255>>) = <<0,0,128,191>> /\ IntToDouble(<<255,255,255,255,255,255,255,255>>) = <<0,0,0,0,0,0,240,191>>  \* -1
-ASSUME IntToFloat(<<2,0,0,0,0,0,0,0>>) = <<0,0,0,64>> /\ IntToDouble(<<2,0,0,0,0,0,0,0>>) = <<0,0,0,0,0,0,0,64>>  \* 2
-ASSUME IntToFloat(<<3,0,0,0,0,0,0,0>>) = <<0,0,64,64>> /\ IntToDouble(<<3,0,0,0,0,0,0,0>>) = <<0,0,0,0,0,0,8,64>>  \* 3
-ASSUME IntToFloat(<<0,0,0,1,0,0,0,0>>) = <<0,0,128,75>> /\ IntToDouble(<<0,0,0,1,0,0,0,0>>) = <<0,0,0,0,0,0,112,65>>  \* 16777216
-ASSUME IntToFloat(<<1,0,0,1,0,0,0,0>>) = <<0,0,128,75>> /\ IntToDouble(<<1,0,0,1,0,0,0,0>>) = <<0,0,0,16,0,0,112,65>>  \* 16777217
-ASSUME IntToFloat(<<2,0,0,1,0,0,0,0>>) = <<1,0,128,75>> /\ IntToDouble(<<2,0,0,1,0,0,0,0>>) = <<0,0,0,32,0,0,112,65>>  \* 16777218
-ASSUME IntToFloat(<<3,0,0,1,0,0,0,0>>) = <<2,0,128,75>> /\ IntToDouble(<<3,0,0,1,0,0,0,0>>) = <<0,0,0,48,0,0,112,65>>  \* 16777219
-ASSUME IntToFloat(<<255,255,255,254,255,255,255,255>>) = <<0,0,128,203>> /\ IntToDouble(<<255,255,255,254,255,255,255,255>>) = <<0,0,0,16,0,0,112,193>>  \* -16777217
-ASSUME IntToFloat(<<0,0,0,0,0,0,32,0>>) = <<0,0,0,90>> /\ IntToDouble(<<0,0,0,0,0,0,32,0>>) = <<0,0,0,0,0,0,64,67>>  \* 9007199254740992
-ASSUME IntToFloat(<<1,0,0,0,0,0,32,0>>) = <<0,0,0,90>> /\ IntToDouble(<<1,0,0,0,0,0,32,0>>) = <<0,0,0,0,0,0,64,67>>  \* 9007199254740993
-ASSUME IntToFloat(<<2,0,0,0,0,0,32,0>>) = <<0,0,0,90>> /\ IntToDouble(<<2,0,0,0,0,0,32,0>>) = <<1,0,0,0,0,0,64,67>>  \* 9007199254740994
-ASSUME IntToFloat(<<3,0,0,0,0,0,32,0>>) = <<0,0,0,90>> /\ IntToDouble(<<3,0,0,0,0,0,32,0>>) = <<2,0,0,0,0,0,64,67>>  \* 9007199254740995
-ASSUME IntToFloat(<<255,255,255,255,255,255,255,127>>) = <<0,0,0,95>> /\ IntToDouble(<<255,255,255,255,255,255,255,127>>) = <<0,0,0,0,0,0,224,67>>  \* 9223372036854775807
-ASSUME IntToFloat(<<0,0,0,0,0,0,0,128>>) = <<0,0,0,223>> /\ IntToDouble(<<0,0,0,0,0,0,0,128>>) = <<0,0,0,0,0,0,224,195>>  \* -9223372036854775808
-ASSUME IntToFloat(<<255,255,255,127,0,0,0,0>>) = <<0,0,0,79>> /\ IntToDouble(<<255,255,255,127,0,0,0,0>>) = <<0,0,192,255,255,255,223,65>>  \* 2147483647
-ASSUME IntToFloat(<<0,0,0,128,255,255,255,255>>) = <<0,0,0,207>> /\ IntToDouble(<<0,0,0,128,255,255,255,255>>) = <<0,0,0,0,0,0,224,193>>  \* -2147483648
-ASSUME IntToFloat(<<255,255,255,7,0,0,0,0>>) = <<0,0,0,77>> /\ IntToDouble(<<255,255,255,7,0,0,0,0>>) = <<0,0,0,252,255,255,159,65>>  \* 134217727
-ASSUME IntToFloat(<<255,255,255,255,251,255,255,255>>) = <<0,0,128,208>> /\ IntToDouble(<<255,255,255,255,251,255,255,255>>) = <<0,0,4,0,0,0,16,194>>  \* -17179869185
-ASSUME IntToFloat(<<255,255,255,255,255,255,127,0>>) = <<0,0,0,91>> /\ IntToDouble(<<255,255,255,255,255,255,127,0>>) = <<0,0,0,0,0,0,96,67>>  \* 36028797018963967
-ASSUME IntToFloat(<<255,255,255,255,255,255,127,255>>) = <<0,0,0,219>> /\ IntToDouble(<<255,255,255,255,255,255,127,255>>) = <<0,0,0,0,0,0,96,195>>  \* -36028797018963969
-ASSUME IntToFloat(<<0,0,0,0,0,0,0,64>>) = <<0,0,128,94>> /\ IntToDouble(<<0,0,0,0,0,0,0,64>>) = <<0,0,0,0,0,0,208,67>>  \* 4611686018427387904
-ASSUME IntToFloat(<<255,255,255,255,255,255,255,63>>) = <<0,0,128,94>> /\ IntToDouble(<<255,255,255,255,255,255,255,63>>) = <<0,0,0,0,0,0,208,67>>  \* 4611686018427387903
-ASSUME IntToFloat(<<255,255,255,1,0,0,0,0>>) = <<0,0,0,76>> /\ IntToDouble(<<255,255,255,1,0,0,0,0>>) = <<0,0,0,240,255,255,127,65>>  \* 33554431
-ASSUME IntToFloat(<<0,0,0,0,128,255,255,127>>) = <<255,255,255,94>> /\ IntToDouble(<<0,0,0,0,128,255,255,127>>) = <<0,0,0,224,255,255,223,67>>  \* 9223371487098961920
-ASSUME IntToFloat(<<255,255,255,255,127,255,255,127>>) = <<255,255,255,94>> /\ IntToDouble(<<255,255,255,255,127,255,255,127>>) = <<0,0,0,224,255,255,223,67>>  \* 9223371487098961919
-ASSUME IntToFloat(<<255,255,255,0,0,0,0,0>>) = <<255,255,127,75>> /\ IntToDouble(<<255,255,255,0,0,0,0,0>>) = <<0,0,0,224,255,255,111,65>>  \* 16777215
-ASSUME IntToFloat(<<2,0,0,2,0,0,0,0>>) = <<0,0,0,76>> /\ IntToDouble(<<2,0,0,2,0,0,0,0>>) = <<0,0,0,16,0,0,128,65>>  \* 33554434
-ASSUME IntToFloat(<<6,0,0,2,0,0,0,0>>) = <<2,0,0,76>> /\ IntToDouble(<<6,0,0,2,0,0,0,0>>) = <<0,0,0,48,0,0,128,65>>  \* 33554438
-ASSUME IntToFloat(<<21,205,91,7,0,0,0,0>>) = <<163,121,235,76>> /\ IntToDouble(<<21,205,91,7,0,0,0,0>>) = <<0,0,0,84,52,111,157,65>>  \* 123456789
-ASSUME IntToFloat(<<192,255,255,255,255,255,255,255>>) = <<0,0,128,194>> /\ IntToDouble(<<192,255,255,255,255,255,255,255>>) = <<0,0,0,0,0,0,80,192>>  \* -64
-ASSUME IntToFloat(<<64,0,0,0,0,0,0,0>>) = <<0,0,128,66>> /\ IntToDouble(<<64,0,0,0,0,0,0,0>>) = <<0,0,0,0,0,0,80,64>>  \* 64
-ASSUME FloatToDouble(<<0,0,0,0>>) = <<0,0,0,0,0,0,0,0>>
-ASSUME FloatToDouble(<<0,0,0,128>>) = <<0,0,0,0,0,0,0,128>>
-ASSUME FloatToDouble(<<0,0,128,127>>) = <<0,0,0,0,0,0,240,127>>
-ASSUME FloatToDouble(<<0,0,128,255>>) = <<0,0,0,0,0,0,240,255>>
-ASSUME FloatToDouble(<<1,0,0,0>>) = <<0,0,0,0,0,0,160,54>>
-ASSUME FloatToDouble(<<255,255,127,0>>) = <<0,0,0,192,255,255,15,56>>
-ASSUME FloatToDouble(<<0,0,128,0>>) = <<0,0,0,0,0,0,16,56>>
-ASSUME FloatToDouble(<<0,0,128,63>>) = <<0,0,0,0,0,0,240,63>>
-ASSUME FloatToDouble(<<255,255,127,127>>) = <<0,0,0,224,255,255,239,71>>
-ASSUME FloatToDouble(<<0,0,247,194>>) = <<0,0,0,0,0,224,94,192>>
-ASSUME FloatToDouble(<<3,0,0,0>>) = <<0,0,0,0,0,0,184,54>>
-ASSUME FloatToDouble(<<0,1,0,128>>) = <<0,0,0,0,0,0,32,183>>
-ASSUME DoubleToFloat(<<0,0,0,0,0,0,0,0>>) = <<0,0,0,0>>  \* 0.0
-ASSUME DoubleToFloat(<<0,0,0,0,0,0,0,128>>) = <<0,0,0,128>>  \* -0.0
-ASSUME DoubleToFloat(<<0,0,0,0,0,0,240,127>>) = <<0,0,128,127>>  \* inf
-ASSUME DoubleToFloat(<<0,0,0,0,0,0,240,255>>) = <<0,0,128,255>>  \* -inf
-ASSUME DoubleToFloat(<<1,0,0,0,0,0,0,0>>) = <<0,0,0,0>>  \* 5e-324
-ASSUME DoubleToFloat(<<0,0,0,0,0,0,240,63>>) = <<0,0,128,63>>  \* 1.0
-ASSUME DoubleToFloat(<<255,255,255,255,255,255,239,127>>) = <<0,0,128,127>>  \* 1.7976931348623157e+308
-ASSUME DoubleToFloat(<<0,0,0,224,255,255,239,71>>) = <<255,255,127,127>>  \* 3.4028234663852886e+38
-ASSUME DoubleToFloat(<<0,0,0,240,255,255,239,71>>) = <<0,0,128,127>>  \* 3.4028235677973366e+38
-ASSUME DoubleToFloat(<<255,255,255,239,255,255,239,71>>) = <<255,255,127,127>>  \* 3.4028235677973362e+38
-ASSUME DoubleToFloat(<<0,0,0,0,0,0,160,54>>) = <<1,0,0,0>>  \* 1.401298464324817e-45
-ASSUME DoubleToFloat(<<1,0,0,0,0,0,160,54>>) = <<1,0,0,0>>  \* 1.4012984643248174e-45
-ASSUME DoubleToFloat(<<255,255,255,255,255,255,159,54>>) = <<1,0,0,0>>  \* 1.4012984643248169e-45
-ASSUME DoubleToFloat(<<0,0,0,0,0,0,144,54>>) = <<0,0,0,0>>  \* 7.006492321624085e-46
-ASSUME DoubleToFloat(<<255,255,255,255,255,255,15,56>>) = <<0,0,128,0>>  \* 1.1754943508222874e-38
-ASSUME DoubleToFloat(<<0,0,0,0,0,0,16,56>>) = <<0,0,128,0>>  \* 1.1754943508222875e-38
-ASSUME DoubleToFloat(<<0,0,0,240,255,255,15,56>>) = <<0,0,128,0>>  \* 1.1754943157898259e-38
-ASSUME DoubleToFloat(<<0,0,0,16,0,0,240,63>>) = <<0,0,128,63>>  \* 1.0000000596046448
-ASSUME DoubleToFloat(<<0,0,0,48,0,0,240,63>>) = <<2,0,128,63>>  \* 1.0000001788139343
-ASSUME DoubleToFloat(<<1,0,0,16,0,0,240,63>>) = <<1,0,128,63>>  \* 1.000000059604645
-ASSUME DoubleToFloat(<<119,190,159,26,47,221,94,192>>) = <<121,233,246,194>>  \* -123.456
-ASSUME DoubleToFloat(<<0,0,0,0,0,0,184,54>>) = <<3,0,0,0>>  \* 4.203895392974451e-45
-ASSUME DoubleToFloat(<<1,0,0,0,0,0,240,55>>) = <<0,0,32,0>>  \* 2.9387358770557194e-39
+(* The independently computed test vectors are ASSUMEd in module IeeeVectors, which every model run extends. *)
 =============================================================================
